@@ -81,6 +81,7 @@ class Backend:
         self.api_calls = 0
         self._pending_pages: dict[str, list[dict]] = {}
         self.on_apply = None  # hook(update, op) called after each applied update (world reactions)
+        self.prune_completed = False
         self.lean_step_details = False  # world option "lean_step_details": a step that has not retried yet is reported WITHOUT StepDetails
         self.skew = 0.0  # world option "clock_skew": the service's clock is this many (virtual) seconds ahead of the function host's
         self.empty_page_every = 0  # pages option "empty_every": every k-th page fetch answers with no operations but a marker
@@ -121,6 +122,21 @@ class Backend:
         return copy.deepcopy(self.ops)
 
     # ------------------------------------------------------------------ timers
+    def _pruned(self, oid: str) -> bool:
+        """World option "prune_completed": the history handed to an invocation leaves out the descendants of contexts that have
+        completed (their result is on the context's own record), except under ReplayChildren."""
+        if not self.prune_completed:
+            return False
+        p = self.ops[oid].get("ParentId")
+        seen = 0
+        while p and p in self.ops and seen < 100:
+            par = self.ops[p]
+            if par.get("Type") == "CONTEXT" and par.get("Status") in TERMINAL and not (par.get("ContextDetails") or {}).get("ReplayChildren"):
+                return True
+            p = par.get("ParentId")
+            seen += 1
+        return False
+
     def svc_now(self) -> float:
         return self.clock.now() + self.skew
 
@@ -209,7 +225,7 @@ class Backend:
         self.fire_due()
         self.dirty = []
         tok = self._new_token()
-        all_ops = [op_to_json(self.ops[i]) for i in self.order]
+        all_ops = [op_to_json(self.ops[i]) for i in self.order if not self._pruned(i)]
         if first_page is None or first_page >= len(all_ops):
             head, rest = all_ops, []
         else:
